@@ -2,6 +2,7 @@ SPECIFICATION Spec
 CONSTANTS
   PEERS = {"p1"}
   CIDS = {"c1"}
-  MaxOps = 0
+  MaxOps = 2
   MaxOut = 0
-  HandoffOrdered = TRUE
+  HandoffOrdered = FALSE
+INVARIANTS E2EInv
